@@ -76,4 +76,16 @@ MUTANTS = [
     M("c07-bmm-scale-product-late-cast", "C07", "break", [(OPS, "    out_scale = input._scale.to(torch.float32) * other._scale.to(torch.float32)", "    out_scale = (input._scale * other._scale).to(torch.float32)")], "C07.R10"),
     M("c07-mm-one-factor-cast", "C07", "break", [(OPS, "fp32_output = input._scale.to(torch.float32) * other._scale.to(torch.float32) * out_data", "fp32_output = input._scale.to(torch.float32) * other._scale * out_data")], "C07.R10"),
     M("c07-refactor-scale-product-float", "C07", "refactor", [(OPS, "    out_scale = input._scale.to(torch.float32) * other._scale.to(torch.float32)", "    out_scale = torch.mul(input._scale.float(), other._scale.float())")]),
+    # ---------------- C09.R9 (finding F37) and the rules written for the fifth round of seeded changes
+    M("c09-output-scale-with-graph-again", "C09", "break", [(CAL, "            module.output_scale = _updated_scale(module.output_scale, output_scale, self.momentum).detach()", "            module.output_scale = _updated_scale(module.output_scale, output_scale, self.momentum)")], "C09.R9"),
+    M("c09-refactor-scales-under-no-grad", "C09", "refactor", [(CAL, "            module.output_scale = _updated_scale(module.output_scale, output_scale, self.momentum).detach()", "            with torch.no_grad():\n                module.output_scale = _updated_scale(module.output_scale, output_scale, self.momentum)")]),
+    M("c12-refactor-scales-under-no-grad", "C12", "refactor", [(CAL, "            module.output_scale = _updated_scale(module.output_scale, output_scale, self.momentum).detach()", "            module.output_scale = _updated_scale(module.output_scale, output_scale, self.momentum).detach().clone()")]),
+    M("c03-ema-in-float32", "C03", "break", [(CAL, "    return momentum * scale + new_scale * (1.0 - momentum)", "    return momentum * scale.float() + new_scale.float() * (1.0 - momentum)")], "C03.R8"),
+    M("c03-refactor-ema-cast-back", "C03", "refactor", [(CAL, "                module.input_scale = _updated_scale(module.input_scale, input_scale, self.momentum).detach()", "                module.input_scale = _updated_scale(module.input_scale, input_scale, self.momentum).detach().to(input.dtype)")]),
+    M("c07-bmm-accumulates-in-half", "C07", "break", [(OPS, "    out_data = op(input._data.to(torch.float32), other._data.to(torch.float32))", "    out_data = op(input._data.to(torch.float16), other._data.to(torch.float16))")], "C07.R3"),
+    M("c05-bmm-accumulates-in-bfloat16", "C05", "break", [(OPS, "    out_data = op(input._data.to(torch.float32), other._data.to(torch.float32))", "    out_data = op(input._data.to(torch.bfloat16), other._data.to(torch.bfloat16))")], "C05.R15"),
+    M("c07-refactor-bmm-float-method", "C07", "refactor", [(OPS, "    out_data = op(input._data.to(torch.float32), other._data.to(torch.float32))", "    out_data = op(input._data.float(), other._data.float())")]),
+    M("c04-unpack-memoised", "C04", "break", [("optimum/quanto/library/python/unpack.py", "@torch.library.impl(\"quanto_py::unpack\", \"default\")", "_CACHE = {}\n\n\n@torch.library.impl(\"quanto_py::unpack\", \"default\")"),
+                                              ("optimum/quanto/library/python/unpack.py", "    return torch.cat(unpacked).to(torch.uint8)", "    return _CACHE.setdefault((tuple(packed.shape), bits), torch.cat(unpacked).to(torch.uint8))")], "C04.R7"),
+    M("c04-pack-writes-into-source", "C04", "break", [("optimum/quanto/tensor/qbits/packed.py", "    unpacked = intweights.to(torch.uint8)\n", "    unpacked = intweights.to(torch.uint8)\n    intweights[row_dim:] |= 0\n")], "C04.R7"),
 ]
